@@ -340,13 +340,35 @@ func (m *Machine) load(t types.Type, addr Value) Value {
 	panic(fmt.Sprintf("load from %T", addr))
 }
 
+// storeInPlace assigns an aggregate element by element so that addresses of fields and elements taken
+// before the store (&x.f; x = T{...}; use of the address) keep referring to the variable.
+func (m *Machine) storeInPlace(p *Value, v Value) {
+	switch nv := v.(type) {
+	case Struct:
+		if old, ok := (*p).(Struct); ok && len(old) == len(nv) {
+			for i := range nv {
+				m.storeInPlace(&old[i], nv[i])
+			}
+			return
+		}
+	case Array:
+		if old, ok := (*p).(Array); ok && len(old) == len(nv) {
+			for i := range nv {
+				m.storeInPlace(&old[i], nv[i])
+			}
+			return
+		}
+	}
+	m.store(p, v)
+}
+
 func (m *Machine) storeTo(addr Value, v Value) {
 	switch p := addr.(type) {
 	case *Value:
 		if p == nil {
 			m.panicRT("runtime error: invalid memory address or nil pointer dereference")
 		}
-		m.store(p, copyVal(v))
+		m.storeInPlace(p, copyVal(v))
 		return
 	case *SymPtr:
 		m.symStore(p, v)
@@ -647,6 +669,8 @@ func (fr *frame) runDefer(d *deferred) {
 	ok = true
 }
 
+var dbgFn = os.Getenv("GOSYM_DBGFN")
+
 type continuation int
 
 const (
@@ -680,6 +704,15 @@ func (m *Machine) prepareCall(fr *frame, call *ssa.CallCommon) (Value, []Value) 
 }
 
 func (m *Machine) visit(fr *frame, instr ssa.Instruction) continuation {
+	if dbgFn != "" && fr.fn.Name() == dbgFn {
+		defer func() {
+			if v, ok := instr.(ssa.Value); ok {
+				fmt.Fprintf(os.Stderr, "DBG %s = %s  => %v\n", v.Name(), instr, fr.env[fr.info.index[v]])
+			} else {
+				fmt.Fprintf(os.Stderr, "DBG %s\n", instr)
+			}
+		}()
+	}
 	c := m.ctx
 	switch instr := instr.(type) {
 	case *ssa.DebugRef:
